@@ -272,6 +272,48 @@ def _run_job(args):
                 'label': getattr(fn, '__name__', str(idx)) + str(kw)}
 
 
+def _pool_child(task, conn):
+    try:
+        conn.send(_run_job(task))
+    finally:
+        conn.close()
+
+
+def _run_pool(tasks, workers):
+    """one forked process per job (forked from the main thread, which has no other threads), at most `workers` at a time. A job whose process dies without delivering a result (hard crash of a
+    native library, kill) is run once more; a second death is a harness error of that job (exit 3), never a hang and never a verdict."""
+    from multiprocessing import connection as mpc
+    ctx = mp.get_context('fork')
+    pending = [(t, 0) for t in tasks]
+    running = {}
+    outs = []
+    while pending or running:
+        while pending and len(running) < workers:
+            t, tries = pending.pop(0)
+            r, w = ctx.Pipe(duplex=False)
+            p = ctx.Process(target=_pool_child, args=(t, w))
+            p.start()
+            w.close()
+            running[r] = (p, t, tries)
+        for r in mpc.wait(list(running), timeout=5.0):
+            p, t, tries = running.pop(r)
+            try:
+                out = r.recv()
+            except (EOFError, OSError):
+                out = None
+            r.close()
+            p.join()
+            if out is None:
+                if tries == 0:
+                    pending.append((t, 1))
+                else:
+                    outs.append({'job': t[0], 'ok': False, 'error': 'worker process died twice without a result (exit code %r)' % (p.exitcode,), 'trace': '', 'wall': 0.0,
+                                 'label': getattr(t[1], '__name__', str(t[0])) + str(t[2])})
+            else:
+                outs.append(out)
+    return outs
+
+
 def run_check(pid, jobs, meta, workers=None):
     """jobs: list of (callable, kwargs). Each callable returns {'results': [...], 'encoded': [...], 'notes': [...]}.
     Writes evidence/<pid>.json, prints the outcome lines and exits with the protocol code."""
@@ -283,9 +325,7 @@ def run_check(pid, jobs, meta, workers=None):
     workers = workers or min(16, max(1, len(jobs)))
     tasks = [(i, fn, kw) for i, (fn, kw) in enumerate(jobs)]
     if workers > 1 and len(tasks) > 1:
-        ctx = mp.get_context('fork')
-        with ctx.Pool(workers, maxtasksperchild=1) as pool:
-            outs = list(pool.imap_unordered(_run_job, tasks, chunksize=1))
+        outs = _run_pool(tasks, workers)
     else:
         outs = [_run_job(t) for t in tasks]
     outs.sort(key=lambda o: o['job'])
